@@ -40,9 +40,9 @@ class P(c04.P):
         if a != 0:
             disc = b * b - 4 * a * c
             if disc >= 0:
-                sq = Fraction(math.sqrt(float(disc))) if float(disc) < 1e300 else None
-                if sq is not None:
-                    roots = [(-b + sq) / (2 * a), (-b - sq) / (2 * a)]
+                # sqrt(n/d) = isqrt(n*d*4^120) / (d*2^120): approximate stationary points (values at them are exact)
+                sq = Fraction(math.isqrt((disc.numerator * disc.denominator) << 240), disc.denominator << 120)
+                roots = [(-b + sq) / (2 * a), (-b - sq) / (2 * a)]
         elif b != 0:
             roots = [-c / b]
         for x in [x0, x1] + [r for r in roots if x0 < r < x1]:
